@@ -1,6 +1,7 @@
 package gencode
 
 import (
+	"bytes"
 	"encoding/json"
 	"fmt"
 	"sort"
@@ -312,7 +313,7 @@ func posOf(unset []string) string {
 }
 
 func TestC17(t *testing.T) {
-	rec := ev.New("C17", "case = (generated type - proto2, or proto3 with imported proto2 children - with required fields of its own or in children reached through a field / required field / list / map / oneof, subset of those required fields left unset); every subset is enumerated per type (up to 2^8) with the required scalars set to the zero value of their kind and to 1, and the complete message and every single-field subset with 7 further boundary values, plus the completely empty message and the empty input, plus inputs that carry the unset field's number with a mismatching wire type; oracle = reference verdict: Marshal fails <=> proto.CheckInitialized fails; generated Unmarshal of the reference's AllowPartial encoding fails <=> the strict reference Unmarshal fails, into a fresh receiver and into one that a complete message was unmarshaled into before; non-trivial = >= 1 required field unset; distinct by (type, subset, value choice)")
+	rec := ev.New("C17", "case = (generated type - proto2, or proto3 with imported proto2 children - with required fields of its own or in children reached through a field / required field / list / map / oneof, subset of those required fields left unset); every subset is enumerated per type (up to 2^8) with the required scalars set to the zero value of their kind and to 1, and the complete message and every single-field subset with 7 further boundary values, plus the completely empty message and the empty input, plus inputs that carry the unset field's number with a mismatching wire type, plus every subset's encoding repeated two and three times (present fields occur repeatedly); oracle = reference verdict: Marshal fails <=> proto.CheckInitialized fails; generated Unmarshal of the reference's AllowPartial encoding fails <=> the strict reference Unmarshal fails, into a fresh receiver and into one that a complete message was unmarshaled into before; non-trivial = >= 1 required field unset; distinct by (type, subset, value choice)")
 	defer rec.Write()
 	useRecorder(rec)
 	defer func() { t.Log(rec.Summary()); fmt.Print(rec.SurveyReport()) }()
@@ -360,6 +361,19 @@ func TestC17(t *testing.T) {
 					rec.Class("complete-message")
 				}
 				rec.Check(t, "rcase", c, oracleC17(c))
+				// the same encoding two and three times over (every field that is present occurs several times: legal,
+				// the last occurrence of a singular field wins): what is missing is still missing
+				if vi <= 1 && len(b) > 0 {
+					for reps := 2; reps <= 3; reps++ {
+						c3 := &RCase{Type: mt.Key(), Value: bytes.Repeat(b, reps), Unset: unset}
+						rec.Eval(1)
+						if len(unset) > 0 {
+							rec.NonTrivialEnum(1)
+						}
+						rec.Class("present-fields-occur-repeatedly")
+						rec.Check(t, "rcase", c3, oracleC17(c3))
+					}
+				}
 				// the unset field's NUMBER is on the wire after all, but with another wire type (a conforming reader
 				// keeps that as an unknown field): the required field is still missing
 				if vi <= 1 && mask != 0 && mask&(mask-1) == 0 {
